@@ -312,6 +312,93 @@ def collRun (nodeId : Nat) (pre save rd : String) (objsA objsB : List (Nat × Op
           s!"{bTxt} logB={showLog st2.log}"
       | _, _ => "bad-op"
 
+/-! ### subscription operations (`subs …`): the subscriber table before the call is an input -/
+
+def showCb : Net.Cb → String
+  | .user k => s!"A{k}"
+  | .node 2 (.other c) => s!"L{c / 2}"
+  | .node 1 (.other c) => (if c % 2 = 1 then "ST" else "SR") ++ toString (c / 2)
+  | _ => "?"
+
+/-- `A<k>` an application callback, `L<k>` `on_message` of TPDO k of another node object (PDO
+    linking), `S<R|T><n>` `on_message` of this node's own map -/
+def parseCb (tok : String) : Option Net.Cb :=
+  match tok.toList with
+  | 'A' :: ds => (String.ofList ds).toNat?.map .user
+  | 'L' :: ds => (String.ofList ds).toNat?.map fun k => mapCb 2 true k
+  | 'S' :: 'R' :: ds => (String.ofList ds).toNat?.map fun n => mapCb 1 false n
+  | 'S' :: 'T' :: ds => (String.ofList ds).toNat?.map fun n => mapCb 1 true n
+  | _ => none
+
+/-- `cob:tok,tok;cob:;…` — a key with no token is a key whose list became empty again -/
+def parsePrior (s : String) : Option (List (Nat × List Net.Cb)) :=
+  (splitList ";" s).mapM fun e =>
+    match e.splitOn ":" with
+    | [c, toks] => do
+        let c ← c.toNat?
+        let cbs ← (if toks = "" then some [] else (toks.splitOn ",").mapM parseCb)
+        pure (c, cbs)
+    | _ => none
+
+def priorTable (l : List (Nat × List Net.Cb)) : Net.Subs :=
+  l.foldl (fun t (e : Nat × List Net.Cb) =>
+    if e.2.isEmpty then
+      -- subscribed and unsubscribed again: the key stays, with an empty list
+      (Net.unsubscribe (Net.subscribe t e.1 (.user 0)) e.1 (some (.user 0))).getD t
+    else e.2.foldl (fun t cb => Net.subscribe t e.1 cb) t) ⟨fun _ => none⟩
+
+def showTable (t : Net.Subs) (ids : List Nat) : String :=
+  let u := ids.foldl (fun acc x => if acc.contains x then acc else acc ++ [x]) []
+  let sorted := (u.toArray.qsort (· < ·)).toList
+  if sorted.isEmpty then "-" else
+  ";".intercalate (sorted.map fun id =>
+    s!"{id}:" ++ ",".intercalate (((t.get id).getD []).map showCb))
+
+def subsRun (nodeId : Nat) (x act : String) (objs : List (Nat × Option (List Nat)))
+    (prior : List (Nat × List Net.Cb)) (ins : List MapIn) : String :=
+  if !distinctKeys ins then "bad-op" else
+  if ins.any (fun mi => mi.how ≠ "u" ∧ mi.how ≠ "a") then "bad-op" else
+  match ins.mapM fun mi => (slot mi.isTx mi.n nodeId).map fun sl => (mi, sl) with
+  | none => "no-slot"
+  | some withSlots =>
+    match withSlots.mapM fun (mi, sl) => parseDev mi.devs mi.ents mi.mp sl.comIdx sl.mapIdx with
+    | none => "bad-op"
+    | some devs =>
+      let pobjs := (withSlots.map fun (mi, sl) => pdoObjs sl mi).flatten
+      let all0 : List MapSt :=
+        withSlots.map fun (mi, sl) =>
+          { isTx := mi.isTx, n := mi.n, cfg := Cfg.fresh, subs := [],
+            od := { comIdx := sl.comIdx, mapIdx := sl.mapIdx, com := mi.odcom, map := mi.odmap,
+                    mapIsArray := mi.mapIsArray, objs := pobjs ++ objs, curtis := false } }
+      match callsOf (if x = "4" then "p" else x) all0 with
+      | none => "bad-op"
+      | some calls =>
+        let D := multiDev
+        let action : Option (List MapSt → List MapSt → M (List PdoDev) (List MapSt)) :=
+          if act = "s" then some (fun all sel => M.pure (subscribeMaps all sel))
+          else if act = "r" then some (readMaps D .live)
+          else if act = "v" then some (saveMaps D)
+          else none
+        match action with
+        | none => "bad-op"
+        | some f =>
+          if x = "4" ∧ act ≠ "s" then "bad-op" else
+          let phase : M (List PdoDev) (List MapSt) :=
+            M.bind (prepare D ins all0) fun a1 => runCalls f calls a1
+          let (st1, ra) := phase { dev := devs, log := [] }
+          let ids := prior.map (·.1) ++ ins.filterMap (fun mi => mi.attrs.cob) ++
+            devs.map (fun d => d.cobWord % 2 ^ 29)
+          let t0 := priorTable prior
+          match ra with
+          | .ok ms =>
+            -- every map is visited at most once, in the order of the calls
+            let visited := (calls.map fun c => c.sel ms).flatten
+            let cfgs := "|".intercalate (ms.map fun m =>
+              (if m.isTx then "T" else "R") ++ s!"{m.n}:{showCfg m.cfg}")
+            s!"A=ok mapsA={cfgs} tab={showTable (tableAfter 1 t0 visited) ids} " ++
+            s!"log={showLog st1.log}"
+          | .error e => s!"A={showErr e} mapsA=- tab=- log={showLog st1.log}"
+
 def step (args : List String) : String :=
   match args with
   | ["run", dir, n, nid, src, cur, cfg, map, odcom, odmap, objsA, objsB, dev, ents, mp, wf, rf] =>
@@ -331,6 +418,11 @@ def step (args : List String) : String :=
     | some nid, some oa, some ob, some wf, some rf, some ins =>
       if ins.isEmpty then "bad-op" else collRun nid pre save rd oa ob wf rf ins
     | _, _, _, _, _, _ => "bad-op"
+  | "subs" :: nid :: entry :: objs :: prior :: maps =>
+    match nid.toNat?, entry.toList, parseObjs objs, parsePrior prior, maps.mapM parseMapIn with
+    | some nid, [x, a], some ob, some pr, some ins =>
+      if ins.isEmpty then "bad-op" else subsRun nid x.toString a.toString ob pr ins
+    | _, _, _, _, _ => "bad-op"
   | _ => "bad-op"
 
 end Canopen.Driver.C09
